@@ -433,12 +433,34 @@ pub fn run_check(prop: &str, tier: Tier, seed: u64) -> i32 {
     let mut suppressed_by_class: BTreeMap<String, u64> = BTreeMap::new();
     let mut reported = Vec::new();
     let max_report = 12;
+    // A pinned C08 class stands for "this undo record is wrong when one of the quarantined triggers is in the
+    // history". The same class reached by a history without any of them is a different violation and is reported.
+    let mut narrowed: BTreeMap<String, Vec<(u64, Violation)>> = BTreeMap::new();
+    if prop == "C08" {
+        for (class, list) in &by_class {
+            if known_classes.contains(class) {
+                let open: Vec<(u64, Violation)> = list.iter().filter(|(run, _)| !crate::edit::has_quarantined_trigger(&scenario::generate(prop, tier, seed, *run))).cloned().collect();
+                if !open.is_empty() {
+                    narrowed.insert(class.clone(), open);
+                }
+            }
+        }
+    }
     for (class, list) in &by_class {
-        if known_classes.contains(class) {
+        let list = if let Some(open) = narrowed.get(class) {
+            let hidden = (list.len() - open.len()) as u64;
+            if hidden > 0 {
+                suppressed_known += hidden;
+                suppressed_by_class.insert(class.clone(), hidden);
+            }
+            open
+        } else if known_classes.contains(class) {
             suppressed_known += list.len() as u64;
             suppressed_by_class.insert(class.clone(), list.len() as u64);
             continue;
-        }
+        } else {
+            list
+        };
         if reported.len() >= max_report {
             continue;
         }
